@@ -5,6 +5,7 @@
 package hls
 
 import (
+	"github.com/cnotch/ipchub/utils/simhook"
 	"bytes"
 	"errors"
 	"fmt"
@@ -49,9 +50,11 @@ func (pl *Playlist) M3u8(token string) ([]byte, error) {
 	w.Reset()
 	defer m3u8Pool.Put(w)
 
+	simhook.BeforeRLock(&pl.l)
 	pl.l.RLock()
 	defer pl.l.RUnlock()
 	segments := pl.segments
+	simhook.Y("playlist.m3u8.afterSnapshot")
 
 	if len(segments) < hlsRemainSegments {
 		return nil, errors.New("playlist is not enough,maybe the HLS stream just started")
@@ -95,6 +98,7 @@ func (pl *Playlist) M3u8(token string) ([]byte, error) {
 // Segment 获取 segment
 func (pl *Playlist) Segment(seq int) (io.Reader, int, error) {
 	atomic.StoreInt64(&pl.lastAccessTime, time.Now().UnixNano())
+	simhook.BeforeRLock(&pl.l)
 	pl.l.RLock()
 	defer pl.l.RUnlock()
 
@@ -114,6 +118,7 @@ func (pl *Playlist) LastAccessTime() time.Time {
 
 // Close .
 func (pl *Playlist) Close() error {
+	simhook.BeforeRWLock(&pl.l)
 	pl.l.Lock()
 	defer pl.l.Unlock()
 	pl.clearSegments(0)
@@ -122,6 +127,7 @@ func (pl *Playlist) Close() error {
 }
 
 func (pl *Playlist) addSegment(seg *segment) {
+	simhook.BeforeRWLock(&pl.l)
 	pl.l.Lock()
 	defer pl.l.Unlock()
 	pl.segments = append(pl.segments, seg)
